@@ -9,7 +9,7 @@ let rec int_of_pos = function XH -> 1 | XO p -> 2 * int_of_pos p | XI p -> 2 * i
 let int_of_n = function N0 -> 0 | Npos p -> int_of_pos p
 
 let tbl = Array.init 256 (fun i -> match wire_byte_of_N (n_of_int i) with Some b -> b | None -> assert false)
-let bytes_of_string (s : string) =
+let bytes_of_string (s : String.t) =
   let r = ref [] in
   for i = String.length s - 1 downto 0 do r := tbl.(Char.code s.[i]) :: !r done; !r
 let string_of_bytes l =
@@ -17,7 +17,7 @@ let string_of_bytes l =
   List.iter (fun c -> Buffer.add_char b (Char.chr (int_of_n (wire_byte_to_N c)))) l;
   Buffer.contents b
 
-let entries : (string * (byte list -> byte list)) list = Entries.entries
+let entries : (String.t * (byte list -> byte list)) list = Entries.entries
 
 let () =
   if Array.length Sys.argv < 2 then begin
